@@ -1,9 +1,81 @@
-import time, vf
+import os, time, vf
 PID = "C18"
 H = vf.VERIF + "/checks/C18/harness.cpp"
+
+CH, MU, SEM, BC = "yield,send,recv", "yield,lock,unlock", "yield,acq,rel", "yield,bwait,bpost"
+COND = "yield,cwait,cpost1,cpost2"
+BCC = "yield,bwait,bpost,cwait,cpost1,cpost2"
+MIX = "yield,send,recv,lock,unlock,acq,rel"
+JCC3 = "yield,bwait,bpost,join+1,join+2,cancel+1,cancel+2"
+JCC2 = "yield,bwait,bpost,join+1,cancel+1,createY,createW,joinc,cancelc"
+JCCF = "yield,bwait,bpost,join+1,join+2,cancel+1,cancel+2,createY,createW,joinc,cancelc"
+
+# (tag, alphabet, routines, max script length, max main-context actions (resume/cancel/cleanup) per run, param, processes[, max total steps])
+# param: initial semaphore count; for Condition 0 = Logic::kAll, 1 = Logic::kAny
+QUICK = [
+    ("ch", CH, 3, 3, 1, 0, 4), ("mu", MU, 3, 3, 1, 0, 4), ("sem0", SEM, 3, 3, 1, 0, 4), ("sem1", SEM, 3, 3, 1, 1, 4), ("bc", BC, 3, 3, 1, 0, 4),
+    ("mu-len4", MU, 3, 4, 1, 0, 12, 8), ("ch-len4", CH, 3, 4, 0, 0, 2, 8), ("sem0-len4", SEM, 3, 4, 0, 0, 2, 8),
+    ("ch-2acts", CH, 3, 2, 2, 0, 2), ("mu-2acts", MU, 3, 2, 2, 0, 2), ("sem-2acts", SEM, 3, 2, 2, 0, 2),
+    ("condAll", COND, 3, 2, 2, 0, 4), ("condAny", COND, 3, 2, 2, 1, 4), ("condAll-2r", COND, 2, 3, 1, 0, 2), ("condAny-2r", COND, 2, 3, 1, 1, 2),
+    ("mix", MIX, 3, 2, 1, 0, 12), ("jcc3", JCC3, 3, 2, 1, 0, 12), ("jcc2", JCC2, 2, 2, 2, 0, 4),
+]
+THOROUGH = [
+    ("ch-len4", CH, 3, 4, 2, 0, 64), ("mu-len4", MU, 3, 4, 2, 0, 64), ("sem0-len4", SEM, 3, 4, 2, 0, 64),
+    ("sem1-len4", SEM, 3, 4, 1, 1, 32), ("bc-len4", BC, 3, 4, 1, 0, 32),
+    ("sem1", SEM, 3, 3, 2, 1, 16), ("bc", BC, 3, 3, 2, 0, 16),
+    ("condAll", COND, 3, 3, 1, 0, 32), ("condAny", COND, 3, 3, 1, 1, 32), ("condAll-2acts", COND, 3, 2, 2, 0, 4), ("condAny-2acts", COND, 3, 2, 2, 1, 4),
+    ("bcc", BCC, 3, 2, 2, 0, 16),
+    ("mix", MIX, 3, 2, 2, 0, 48), ("jcc3", JCC3, 3, 2, 2, 0, 48), ("jccf", JCCF, 3, 2, 1, 0, 48),
+    ("jcc2", JCC2, 2, 3, 1, 0, 16), ("jcc2-2acts", JCC2, 2, 2, 2, 0, 4),
+]
+ASAN_INFO = [("asan-ch", CH, 3, 2, 1, 0, 2), ("asan-mu", MU, 3, 3, 0, 0, 2), ("asan-sem", SEM, 3, 2, 1, 0, 2), ("asan-bc", BC, 3, 2, 1, 0, 2),
+             ("asan-cond", COND, 3, 2, 0, 0, 2), ("asan-jcc2", JCC2, 2, 2, 1, 0, 2)]
+
+def cmds(exe, cfgs, only):
+    out = []
+    for c in cfgs:
+        tag, ops, nr, ln, acts, param, nproc = c[:7]
+        tot = c[7] if len(c) > 7 else nr * ln
+        if only and tag != only:
+            continue
+        for p in range(nproc):
+            out.append(("%s:%d/%d" % (tag, p, nproc), [exe, "enum", tag, ops, str(nr), str(ln), str(acts), str(param), str(p), str(nproc), str(tot)]))
+    return out
+
 def main(tier, args):
     t0 = time.time()
     srcs = vf.module_sources("event", "util/fd.cpp")
     stub = [vf.VERIF + "/engine/sched/log_stub.cpp"]
     plain = vf.build("C18/coro_plain", [H], srcs, mode="plain", plain_srcs=stub)
-    print(plain)
+    asan = vf.build("C18/coro_asan", [H], srcs, mode="asan", plain_srcs=stub)
+    cfgs = QUICK if tier == "quick" else THOROUGH
+    budget = float(os.environ.get("VERIF_DEADLINE_S", "75" if tier == "quick" else "1300"))
+    env = {"C18_DEADLINE_AT": "%.0f" % (t0 + budget), "VERIF_DEADLINE_S": str(budget)}
+    res = vf.Result(); log = open(vf.BUILD + "/C18/log.txt", "w")
+    # verdict: plain build (reference model + invariants)
+    vf.run_procs(res, cmds(plain, cfgs, args.only), env=env, log=log)
+    # ASan+UBSan build: information only (ASan warns about swapcontext false positives on this image)
+    if not args.only:
+        info = vf.Result()
+        vf.run_procs(info, cmds(asan, ASAN_INFO, None), env=dict(env, C18_INFO_ONLY="1", ASAN_OPTIONS="detect_leaks=0:abort_on_error=0:detect_stack_use_after_return=0"), log=log)
+        seen = sorted(set(i for i in info.infos if "asan-build-viol" in i or "child" in i))
+        res.infos.append("asan-build (information only, not part of the verdict): programs=%d executions=%d; model signatures also seen there=%d; harness errors=%d"
+                         % (info.stats.get("programs", 0), info.stats.get("executions", 0), len(seen), len(info.errors)))
+        for i in [s for s in seen if "crash" in s or "child-exit" in s or "hang" in s][:6]:
+            res.infos.append("asan-build: " + i[:300])
+        for e in info.errors[:3]:
+            res.infos.append("asan-build harness error (ignored for the verdict): " + e[:300])
+    desc = "; ".join("%s{%s} nr=%d len<=%d acts<=%d param=%d" % c[:6] + (" total<=%d" % c[7] if len(c) > 7 else "") for c in cfgs)
+    vf.finish(PID, tier, res, t0,
+              rule="every program of <=3 routines x every script of <= len ops over the family alphabet (families enumerated exhaustively: " + desc + ") "
+                   "x every main-context schedule (loop passes until the scheduler is idle, with up to `acts` resume(r)/cancel(r)/cleanup actions placed at every pass boundary, "
+                   "final cleanup()), each run on a fresh real Loop + Scheduler + Channel/Mutex/Semaphore/Broadcast/Condition; "
+                   "oracle = reference model (FIFO exactly-once, one holder, acquisitions<=releases+initial) after every pass, lost-wake-up invariants whenever ready queue is empty "
+                   "(private state read with -fno-access-control), cancel/cleanup termination with failure, join liveness and safety; "
+                   "states = distinct canonical idle states (summed per process), executions = program x schedule runs",
+              assumptions=["verdict from the plain (uninstrumented) build; the ASan/UBSan build is run on a sub-space and reported as information only (ASan + swapcontext false-positive warning on this image)",
+                           "routine stacks are 64 KiB instead of the 8 KiB default (stack size is not part of the property)",
+                           "routines leave on any failed blocking call and release a mutex they hold on that path (as Mutex::Locker does)",
+                           "child routines made by a `create` step run a fixed one-step script (yield or broadcast-wait); at most 2 children per run",
+                           "Condition: one waiter at a time adds conditions {1,2} then waits (documented single-waiter use); logic kAll and kAny",
+                           "main-context resume(r) of a routine blocked in Broadcast/Condition wait is not judged (the statement only forbids lost wake-ups there); for join it is judged (join must not report success before the target finished)"])
